@@ -138,7 +138,7 @@ def modelledProfile : Profile.Prof := [
   ("Tuple_Resize", [(.ite, "header(self)->alloc is (var)AllocStack or header(self)->alloc is (var)AllocStatic"), (.thr, "ValueError"), (.fin, ""), (.ite, "n < m"), (.mut, "realloc"), (.mut, "items="), (.mut, "items="), (.els, ""), (.thr, "FormatError"), (.fin, "")]),
   ("Tuple_Concat", [(.chk, "len(obj)"), (.ite, "header(self)->alloc is (var)AllocStack or header(self)->alloc is (var)AllocStatic"), (.thr, "ValueError"), (.fin, ""), (.mut, "realloc"), (.mut, "items="), (.chk, "foreach(obj)"), (.loop, "foreach item in obj"), (.mut, "items="), (.fin, ""), (.mut, "items=")]),
   ("Tuple_Assign", [(.chk, "implements_method(obj, Len, len)"), (.chk, "implements_method(obj, Get, get)"), (.ite, "implements_method(obj, Len, len) and implements_method(obj, Get, get)"), (.chk, "len(obj)"), (.ite, "header(self)->alloc is (var)AllocStack or header(self)->alloc is (var)AllocStatic"), (.thr, "ValueError"), (.fin, ""), (.mut, "realloc"), (.mut, "items="), (.loop, "i < nargs"), (.chk, "get(obj, $I(i))"), (.mut, "items="), (.fin, ""), (.mut, "items="), (.els, ""), (.chk, "foreach(obj)"), (.loop, "foreach item in obj"), (.call, "Tuple_Push"), (.fin, ""), (.fin, "")]),
-  ("Table_Get", [(.ite, "key >= t->data and ((char*)key) < ((char*)t->data) + t->nslots * Table_Step(self)"), (.ret, ""), (.fin, ""), (.call, "cast"), (.ite, "t->nslots is 0"), (.thr, "KeyError"), (.fin, ""), (.chk, "hash(key)"), (.loop, "true"), (.ite, "h is 0 or j > Table_Probe(t, i, h)"), (.thr, "KeyError"), (.fin, ""), (.chk, "eq(Table_Key(t, i), key)"), (.ite, "eq(Table_Key(t, i), key)"), (.ret, ""), (.fin, ""), (.fin, ""), (.ret, "")]),
+  ("Table_Get", [(.ite, "key >= t->data and ((char*)key) < ((char*)t->data) + t->nslots * Table_Step(self)"), (.ite, "key is Table_Key(t, i) and Table_Key_Hash(t, i) isnt 0"), (.ret, ""), (.fin, ""), (.fin, ""), (.call, "cast"), (.ite, "t->nslots is 0"), (.thr, "KeyError"), (.fin, ""), (.chk, "hash(key)"), (.loop, "true"), (.ite, "h is 0 or j > Table_Probe(t, i, h)"), (.thr, "KeyError"), (.fin, ""), (.chk, "eq(Table_Key(t, i), key)"), (.ite, "eq(Table_Key(t, i), key)"), (.ret, ""), (.fin, ""), (.fin, ""), (.ret, "")]),
   ("Table_Set", [(.ite, "t->nslots is 0"), (.mut, "Table_Rehash"), (.fin, ""), (.call, "Table_Set_Move"), (.mut, "Table_Resize_More")]),
   ("Table_Set_Move", [(.call, "cast"), (.call, "cast"), (.chk, "hash(key)"), (.mut, "memset"), (.mut, "memset"), (.ite, "move"), (.mut, "memcpy"), (.mut, "memcpy"), (.mut, "memcpy"), (.els, ""), (.mut, "memcpy"), (.asg, ""), (.asg, ""), (.fin, ""), (.loop, "true"), (.ite, "h is 0"), (.mut, "memcpy"), (.mut, "nitems++"), (.ret, ""), (.fin, ""), (.chk, "eq(Table_Key(t, i), Table_Swapspace_Key(t, t->sspace0))"), (.ite, "eq(Table_Key(t, i), Table_Swapspace_Key(t, t->sspace0))"), (.mut, "destruct"), (.mut, "destruct"), (.mut, "memcpy"), (.ret, ""), (.fin, ""), (.ite, "j > p"), (.mut, "memcpy"), (.mut, "memcpy"), (.mut, "memcpy"), (.fin, ""), (.fin, "")]),
   ("Table_Mem", [(.call, "cast"), (.ite, "t->nslots is 0"), (.ret, ""), (.fin, ""), (.chk, "hash(key)"), (.loop, "true"), (.ite, "h is 0 or j > Table_Probe(t, i, h)"), (.ret, ""), (.fin, ""), (.chk, "eq(Table_Key(t, i), key)"), (.ite, "eq(Table_Key(t, i), key)"), (.ret, ""), (.fin, ""), (.fin, ""), (.ret, "")]),
